@@ -6,16 +6,17 @@ open Rtsp.Facts
 
 /-! ### bytes and characters -/
 
+theorem char_toNat_ofNat {n : Nat} (h : n < 256) : (Char.ofNat n).toNat = n := by
+  have hv : n.isValidChar := Or.inl (by omega)
+  simp [Char.ofNat, hv, Char.ofNatAux, Char.toNat]
+
 theorem toBytes_ofBytes (b : List UInt8) : toBytes (ofBytes b) = b := by
   induction b with
   | nil => rfl
   | cons x xs ih =>
-    have hx : (Char.ofNat x.toNat).toNat = x.toNat := by
-      have : x.toNat < 256 := x.toNat_lt
-      exact Char.toNat_ofNat_of_lt (by omega)
-    simp only [toBytes, ofBytes, List.map_cons, List.map_map] at ih ⊢
-    rw [List.map_map] at ih
-    simp [hx, ih]
+    have hx : (Char.ofNat x.toNat).toNat = x.toNat := char_toNat_ofNat x.toNat_lt
+    simp only [toBytes, ofBytes, List.map_cons] at ih ⊢
+    rw [ih, hx]; simp
 
 /-- strings that are byte strings: every character stands for one byte -/
 def IsBytes (s : Str) : Prop := ∀ c ∈ s, c.toNat < 256
@@ -28,12 +29,11 @@ theorem ofBytes_toBytes {s : Str} (h : IsBytes s) : ofBytes (toBytes s) = s := b
   | cons c cs ih =>
     have hc : c.toNat < 256 := h c (by simp)
     have ih' := ih (fun x hx => h x (by simp [hx]))
-    simp only [toBytes, ofBytes, List.map_cons, List.map_map] at ih' ⊢
+    simp only [toBytes, ofBytes, List.map_cons] at ih' ⊢
     have : Char.ofNat (UInt8.ofNat c.toNat).toNat = c := by
       have : (UInt8.ofNat c.toNat).toNat = c.toNat := by simp [UInt8.toNat_ofNat, Nat.mod_eq_of_lt hc]
       rw [this]; exact Char.ofNat_toNat c
-    rw [List.map_map] at ih'
-    simp [this, ih']
+    rw [ih', this]
 
 /-! ### Authorization -/
 
